@@ -117,6 +117,8 @@ func (o vgfOp) String() string {
 		return fmt.Sprintf("importValue(cols=%v,vals=%v,clear=%v)", o.Cols, o.Vals, o.Clear)
 	case "setValue":
 		return fmt.Sprintf("setValue(col=%d,val=%d)", o.Col, o.Val)
+	case "retryRestart":
+		return "retryRestart: re-import of the stored data, small writes, " + o.Src + " {"
 	}
 	return o.Name
 }
@@ -138,7 +140,7 @@ func vgfPick(t *rapid.T, label string, ws []vgfWeight) string {
 
 // default operation mix per field kind
 func vgfDefaultWeights(kind string) []vgfWeight {
-	admin := []vgfWeight{{"snapshot", 2}, {"bgrun", 3}, {"reopen", 2}, {"reopenNew", 1}, {"flush", 1}, {"recalc", 1}}
+	admin := []vgfWeight{{"snapshot", 2}, {"bgrun", 3}, {"reopen", 2}, {"reopenNew", 1}, {"flush", 1}, {"recalc", 1}, {"retryRestart", 2}}
 	switch kind {
 	case vgfSet:
 		return append([]vgfWeight{{"setBit", 6}, {"clearBit", 4}, {"setRow", 3}, {"clearRow", 2}, {"import", 4}, {"importClear", 3}, {"roaring", 4}, {"roaringClear", 3}, {"importWide", 2}, {"roaringWide", 1}}, admin...)
@@ -238,6 +240,22 @@ func vgfGenOp(t *rapid.T, label string, cfg vgfCfg, ws []vgfWeight) vgfOp {
 	case "setValue":
 		op.Col = col(".col")
 		op.Val = vgfGenVal(t, label+".val")
+	case "retryRestart":
+		// a client retry (re-import of exactly what is stored) followed by a few small writes and a clean restart
+		op.Src = rapid.SampledFrom([]string{"reopen", "reopenNew"}).Draw(t, label+".how")
+		n := rapid.IntRange(1, 3).Draw(t, label+".nsmall")
+		for i := 0; i < n; i++ {
+			op.Cols = append(op.Cols, col(fmt.Sprintf(".c%d", i)))
+			if cfg.Kind == vgfBSI {
+				op.Vals = append(op.Vals, rapid.Int64Range(-3, 3).Draw(t, fmt.Sprintf("%s.d%d", label, i)))
+			} else {
+				op.Rows = append(op.Rows, row(fmt.Sprintf(".r%d", i)))
+			}
+		}
+		op.Clear = rapid.Bool().Draw(t, label+".smallClears")
+		if cfg.Kind == vgfBSI {
+			op.Val = rapid.SampledFrom([]int64{-9, 12, 100, -1000}).Draw(t, label+".fill")
+		}
 	}
 	return op
 }
@@ -792,6 +810,8 @@ func (m *vgfM) apply(op vgfOp) {
 			m.fail("importValue: %v", err)
 		}
 		m.wrote(path, m.bsiRows()...)
+	case "retryRestart":
+		m.applyRetryRestart(op)
 	case "snapshot":
 		if err := f.Snapshot(); err != nil {
 			m.fail("Snapshot: %v", err)
@@ -830,6 +850,82 @@ func (m *vgfM) apply(op vgfOp) {
 		f.RecalculateCache()
 	default:
 		m.fail("unknown op %q", op.Name)
+	}
+}
+
+func (m *vgfM) snapshotsTaken() int {
+	m.f.mu.Lock()
+	defer m.f.mu.Unlock()
+	return m.f.snapshotsTaken
+}
+
+// applyRetryRestart: everything stored is imported once more (nothing changes; for int fragments through the large
+// path when MaxOpN allows), then a few small writes follow, then the fragment is closed and opened and read back.
+func (m *vgfM) applyRetryRestart(op vgfOp) {
+	large := false
+	if m.cfg.Kind == vgfBSI {
+		if len(m.vals) < vgfWideN {
+			fill := vgfOp{Name: "importValue"}
+			for i := 0; i < vgfWideN; i++ {
+				fill.Cols = append(fill.Cols, m.cfg.Shard*ShardWidth+vgfColOffs[i])
+				fill.Vals = append(fill.Vals, op.Val)
+			}
+			m.apply(fill)
+		}
+		m.apply(vgfOp{Name: "snapshot"}) // operation count back to 0, as after any earlier bulk import
+		re := vgfOp{Name: "importValue"}
+		for _, c := range m.valCols() {
+			re.Cols = append(re.Cols, c)
+			re.Vals = append(re.Vals, m.vals[c])
+		}
+		m.drain()
+		m.f.mu.Lock()
+		large = !(len(re.Cols)*int(m.depth+1)+m.f.opN < m.f.MaxOpN)
+		m.f.mu.Unlock()
+		m.apply(re)
+	} else {
+		re := vgfOp{Name: "import"}
+		for _, r := range m.nonEmptyRows() {
+			for _, c := range m.rowCols(r) {
+				re.Rows = append(re.Rows, r)
+				re.Cols = append(re.Cols, c)
+			}
+		}
+		if len(re.Rows) > 0 {
+			m.apply(re)
+		}
+	}
+	snaps := m.snapshotsTaken()
+	pending := m.q != nil && len(m.q) > 0
+	for i, c := range op.Cols {
+		switch {
+		case m.cfg.Kind == vgfBSI:
+			lim := int64(1)<<m.depth - 1
+			v := m.vals[c] + op.Vals[i] // a neighbour of the stored value: only a few bits change
+			if v > lim {
+				v = lim
+			}
+			if v < -lim {
+				v = -lim
+			}
+			m.apply(vgfOp{Name: "setValue", Col: c, Val: v})
+		case op.Clear && i%2 == 1:
+			m.apply(vgfOp{Name: "clearBit", Row: op.Rows[i], Col: c})
+		default:
+			m.apply(vgfOp{Name: "setBit", Row: op.Rows[i], Col: c})
+		}
+	}
+	quiet := m.snapshotsTaken() == snaps && !pending && !(m.q != nil && len(m.q) > 0)
+	m.apply(vgfOp{Name: op.Src})
+	m.hist = append(m.hist, "}")
+	m.checkAll()
+	switch {
+	case m.cfg.Kind == vgfBSI && large && quiet:
+		m.events["bsi:no-op re-import via large path, small writes without snapshot, restart"]++
+	case m.cfg.Kind == vgfBSI && quiet:
+		m.events["bsi:no-op re-import via small path, small writes without snapshot, restart"]++
+	case m.cfg.Kind != vgfBSI && quiet:
+		m.events["bits:no-op re-import, small writes without snapshot, restart"]++
 	}
 }
 
